@@ -33,15 +33,19 @@ def inv_message(it, st, s):
     d = s.get(0)
     if isinstance(d, Seq):
         st.sys.add_ge(d.len - 20)
-        st.sys.add_ge(Lin.const(65555) - d.len)
+        st.sys.add_ge(Lin.const(MSG_MAX) - d.len)
 
 
 def inv_message_check(it, st, s):
     d = s.get(0)
     if isinstance(d, Seq):
-        return [(d.len - 20, "Message.data.len() >= 20"), (Lin.const(65555) - d.len, "Message.data.len() <= 65535 + 20")]
+        return [(d.len - 20, "Message.data.len() >= 20"), (Lin.const(MSG_MAX) - d.len, "Message.data.len() <= %d" % MSG_MAX)]
     return [(Lin.const(-1), "Message.data is a slice of known length")]
 
+
+# upper bound used by the attribute-count argument (L6): 2 * ((len - 20 + 3) / 4) must fit u16, i.e. len <= 131085; the
+# parser establishes len = declared + 20 <= 65555 (C02 length agreement decides the exact equality)
+MSG_MAX = 131072
 
 INVARIANTS = {MSG: inv_message}
 INVARIANT_CHECKS = {MSG: inv_message_check}
@@ -406,7 +410,8 @@ class Lemmas:
         b = self.prog.bodies[body]
         lid = None
         if body == FROM_BYTES + "::{closure#0}" or body == FROM_BYTES:
-            if kind == "assert:BoundsCheck" and re.search(r"< len 3$", rec["descr"]):
+            m4 = re.search(r"< len (\d+)$", rec["descr"])
+            if kind == "assert:BoundsCheck" and m4 and int(m4.group(1)) >= 3:
                 lid = "L4"
         if body in (VALIDATE, VALIDATE + "::{closure#0}"):
             if kind == "panic-call":
